@@ -24,6 +24,11 @@ RAWS = ["0.0", "1.5", "(1:2)", "%{}", "%{1: 2}", "'sym", "Int", "Str", "Arr", "O
         "Arr.bear({B: m{true}}).new([])", "Nil.bear({B: m{true}}).new", "Nil.bear.new", "{a: 1}.bear", "{}.bear({B: true})", "{B: true}.bear",
         "{B: false}.bear({a: 1})", "1.try", "0.try", "nil.try", "1.try.nosuchprop", "1.try.nosuchprop.err", "Float.bear({B: m{false}}).new(1.5)",
         "{B: m{2}}", "{B: \"yes\"}", "{B: [1]}", "[nil]", "[false]", '"0"', '"false"',
+        # booleans from every producer (decoders, comparisons, predicates, conversions), not only the literals
+        'JSON.dec("true")', 'JSON.dec("false")', 'JSON.dec(`[true, false]`)[0]', 'JSON.dec(`[true, false]`)[1]', '`{"a": true}`.decJSON.a', '`{"a": false}`.decJSON.a',
+        "(1 == 1)", "(1 == 2)", "(1 < 2)", "(2 < 1)", "1.B", "0.B", "[].empty?", "[1].empty?", "nil.nil?", "1.nil?", "true.!", "false.!", "'a.sym?", "[1].has?(1)", "[1].has?(2)",
+        "1.try.err?", "1.try.nosuch.err?", "{a: 1}.kindOf?(Obj)", "1.kindOf?(Str)", "[true][0]", "{t: true}.t", "%{1: false}[1]", "true.bear", "true.B", "(!0)", "(!1)",
+        "(1 === 1)", "(1 !== 1)", "1.between?(0, 2)", "\"a\".match(\"b\").empty?", "(1:3).has?(2)", "[1, 2].all?({|e| e > 0})", "[1, 2].any?({|e| e > 5})",
         # B raises: it does not yield true, so every construct must treat the value as false (and keep agreeing)
         "{B: m{Err.new(\"cannot boolify\")}}", "{B: m{1 / 0}}", "{|x| x}", "Func", "m{1}", "{B: m{undefinedname}}"]
 RAISING_B = RAWS[-6:]
@@ -33,6 +38,7 @@ def constructs(c):
     """nine programs; c is the condition node (re-evaluated in each)"""
     return [
         ("ifelse", [If(c, Say(Int(1)), Say(Int(2)))]),
+        ("ifelsenil", [Say(Arr(If(c, Say(Nil()), Say(Int(2)))))]),      # a then-branch whose value is nil is still the branch taken
         ("if", [Say(Arr(If(c, Say(Int(1)))))]),
         ("not", [Say(Pre("!", c))]),
         ("and", [Say(Arr(Inf("&&", c, Say(Int(5)))))]),
@@ -51,6 +57,8 @@ def decide(name, ev, end):
         return "X"
     if name == "ifelse":
         return {("1",): "T", ("2",): "F"}.get(tuple(outs), "X")
+    if name == "ifelsenil":
+        return {("nil", "[nil]"): "T", ("2", "[2]"): "F"}.get(tuple(outs), "X")
     if name == "if":
         return {("1", "[1]"): "T", ("[nil]",): "F"}.get(tuple(outs), "X")
     if name == "not":
@@ -135,7 +143,7 @@ def run():
     ck.cov["traces_validated_against_impl"] = st["ok"] + st["mismatch"] + len(rows)
     ck.cov["exhaustive"] = True
     ck.cov["rule"] = (f"pool of {len(pool)} condition values (zero/non-zero of every type, prototypes, bear descendants with and without a user-defined B, "
-                      "objects whose B is a value / method / side-effecting method / non-boolean, Either and error values) x 9 constructs with "
+                      "objects whose B is a value / method / side-effecting method / non-boolean, Either and error values) x 10 constructs with "
                       "side-effecting operands; non-trivial = values whose B evaluates (table rows checked by the Agree law)")
     ck.assumptions = ["values whose B raises or is missing are outside the property (conversion-hook errors)"]
     return ck.finish()
